@@ -29,6 +29,11 @@ static const struct variant VARIANTS[] = {
     {"header-without-colon", "GET /api/jet/ HTTP/1.1\r\nHost x\r\nUpgrade: websocket\r\nConnection: Upgrade\r\nSec-WebSocket-Key: dGhlIHNhbXBsZSBub25jZQ==\r\nSec-WebSocket-Version: 13\r\n\r\n", true},
     {"header-name-with-space", "GET /api/jet/ HTTP/1.1\r\nHo st: x\r\nUpgrade: websocket\r\nConnection: Upgrade\r\nSec-WebSocket-Key: dGhlIHNhbXBsZSBub25jZQ==\r\nSec-WebSocket-Version: 13\r\n\r\n", true},
     {"no-upgrade-headers", "GET /api/jet/ HTTP/1.1\r\nHost: x\r\n\r\n", true},
+    {"upgrade-header-missing", "GET /api/jet/ HTTP/1.1\r\nHost: x\r\nConnection: Upgrade\r\nSec-WebSocket-Key: dGhlIHNhbXBsZSBub25jZQ==\r\nSec-WebSocket-Version: 13\r\nSec-WebSocket-Protocol: jet\r\n\r\n", true},
+    {"connection-header-missing", "GET /api/jet/ HTTP/1.1\r\nHost: x\r\nUpgrade: websocket\r\nSec-WebSocket-Key: dGhlIHNhbXBsZSBub25jZQ==\r\nSec-WebSocket-Version: 13\r\nSec-WebSocket-Protocol: jet\r\n\r\n", true},
+    {"connection-keep-alive-only", "GET /api/jet/ HTTP/1.1\r\nHost: x\r\nUpgrade: websocket\r\nConnection: keep-alive\r\nSec-WebSocket-Key: dGhlIHNhbXBsZSBub25jZQ==\r\nSec-WebSocket-Version: 13\r\nSec-WebSocket-Protocol: jet\r\n\r\n", true},
+    {"connection-close", "GET /api/jet/ HTTP/1.1\r\nHost: x\r\nUpgrade: websocket\r\nConnection: close\r\nSec-WebSocket-Key: dGhlIHNhbXBsZSBub25jZQ==\r\nSec-WebSocket-Version: 13\r\nSec-WebSocket-Protocol: jet\r\n\r\n", true},
+    {"plain-get-with-key-headers-only", "GET /api/jet/ HTTP/1.1\r\nHost: x\r\nSec-WebSocket-Key: dGhlIHNhbXBsZSBub25jZQ==\r\nSec-WebSocket-Version: 13\r\nSec-WebSocket-Protocol: jet\r\n\r\n", true},
     {"ws-version-12", "GET /api/jet/ HTTP/1.1\r\nHost: x\r\nUpgrade: websocket\r\nConnection: Upgrade\r\nSec-WebSocket-Key: dGhlIHNhbXBsZSBub25jZQ==\r\nSec-WebSocket-Version: 12\r\n\r\n", false},
     {"unsupported-subprotocol", "GET /api/jet/ HTTP/1.1\r\nHost: x\r\nUpgrade: websocket\r\nConnection: Upgrade\r\nSec-WebSocket-Key: dGhlIHNhbXBsZSBub25jZQ==\r\nSec-WebSocket-Version: 13\r\nSec-WebSocket-Protocol: foo\r\n\r\n", false},
     {"key-wrong-length", "GET /api/jet/ HTTP/1.1\r\nHost: x\r\nUpgrade: websocket\r\nConnection: Upgrade\r\nSec-WebSocket-Key: dGhlIHNhbXBsZQ==\r\nSec-WebSocket-Version: 13\r\n\r\n", false},
@@ -205,6 +210,6 @@ const struct driver drv_c13 = {
     .name = "c13",
     .property = "C13",
     .run = run,
-    .rule = "a valid upgrade request truncated after every byte count (then FIN / then reset), with every byte replaced by each of {00, space, CR, LF, X, FF}, plus 30 request variants (wrong path / method / version, malformed request line or header, over-long lines of 511..2000 bytes); with deviation budget 1 each case is also delivered split at every byte position with a would-block in between; non-trivial = cases that must not be upgraded or were not upgraded; states = distinct (bytes, split, ending)",
+    .rule = "a valid upgrade request truncated after every byte count (then FIN / then reset), with every byte replaced by each of {00, space, CR, LF, X, FF}, plus 35 request variants (incl. requests that lack the Upgrade or the Connection: Upgrade header) (wrong path / method / version, malformed request line or header, over-long lines of 511..2000 bytes); with deviation budget 1 each case is also delivered split at every byte position with a would-block in between; non-trivial = cases that must not be upgraded or were not upgraded; states = distinct (bytes, split, ending)",
     .assumptions = "only request-line corruptions, truncations and the listed variants are classified as 'clearly not a valid upgrade'; a corrupted byte inside the header block is subject to the resource and shutdown oracle only",
 };
